@@ -98,7 +98,14 @@ fn small_order(w: &mut Rng, id: IdS, price: u64, ts: u64, plain_only: bool) -> O
         auto: false,
     };
     match kind {
-        Kind::Iceberg => o.hid = w.below(21),
+        Kind::Iceberg => {
+            o.hid = w.below(21);
+            // now and then an iceberg that displays nothing (as after an amend to 0): it can
+            // neither trade nor replenish and is passed over by every match
+            if o.hid > 0 && w.chance(1, 10) {
+                o.vis = 0;
+            }
+        }
         Kind::Reserve => {
             o.hid = w.below(21);
             o.auto = w.chance(2, 3);
